@@ -139,6 +139,15 @@ def pool(V):
     p["us_2"] = UnitSystem("b", "B", {"length": "cm"})
     p["us_1_superset"] = UnitSystem("a", "A", {"length": "m", "time": "s"})
     p["us_1_other_unit"] = UnitSystem("a", "A", {"length": "cm"})
+    p["s_unknownB_x"] = Scalar(GetUnknownQuantity("B"), x)  # differs from s_unknownA_x by the caption only
+    p["s_lmt_x"] = Scalar(x, "m") * Scalar(1.0, "kg") / Scalar(1.0, "s")  # same unit TEXT ...
+    p["s_ltm_x"] = Scalar(x, "m") / Scalar(1.0, "s") * Scalar(1.0, "kg")  # ... from another order of operations
+    p["frac_huge"] = Fraction(10**400, 3)  # finite, beyond the float range
+    p["frac_huge_b"] = Fraction(10**400, 3)
+    p["fv_huge"] = FractionValue(1, Fraction(10**400, 3))
+    p["fs_huge"] = FractionScalar(FractionValue(1, Fraction(10**400, 3)), "in")
+    p["py_huge_int"] = 10**400
+    p["py_huge_neg"] = -(10**400)
     p["py_None"] = None
     p["py_str"] = "m"
     p["py_int"] = 1
